@@ -192,7 +192,7 @@ impl<'a> StmtIterator<'a> {
                         .unwrap()
                         .value()
                         .expect("Expected an integer value");
-                    let value = prev_value + 1;
+                    let value = prev_value.wrapping_add(1);
                     if value < loop_state.max {
                         ctx.set(loop_state.variable, value);
                         self.inner_state = StmtIteratorState::StartIterateInner(loop_state.take());
